@@ -23,6 +23,10 @@ checks = {
  "C18": ("A", "explicit-state BFS over option/setting/log-level setter histories vs. reference bit-sets and records",
          "Option bits: every tri-state method found by reflection (deprecated aliases included) x {true,false,toggle} from every reachable option set (all 2^8 on Stacks of each kind, all on Conditions), compared with a reference bit-set whose bit assignment is derived empirically, with the public getters, with behaviour (fold, lead-once, index options via String/Index) and differentially with a twin built directly. String-valued settings (ID, category, delimiter, symbol, encapsulation incl. duplicate refusal, auxiliary, FIFO latch): BFS, getters and exact String() compared. Log levels: fix-point over reachable 16-bit masks with names, constants, raw ints.",
          "Trusted: documentation of the none/all shortcuts in log.go; settings family complete to the depth reported in the evidence.", "§3 C18"),
+
+ "C07": ("B", "exhaustive enumeration of (tree, index options, path) against a stepwise-descent reference on the real code",
+         "Every tree of the bounded family (leaf, nil, empty Stack, Condition(leaf), nested Stack / alias / pointer-to-alias / Condition(Stack) / Condition(alias)) x 4 placements of the negative/forward index options x every path of length 0..3 (quick) / 0..5 (thorough) with indices in [-1,3]; Traverse's value and flag are compared with a descent that takes one real Index step at a time, exactly as the statement defines it; the tree's raw dump must be unchanged afterwards.",
+         "Trusted: Index, ConvertStack, ConvertCondition, Expression as single steps (covered by C01/C08/C12); bounded depth/width.", "§3 C07"),
 }
 not_built = {f"C{i:02d}" for i in range(1,21)} - set(checks)
 m = {
